@@ -17,7 +17,9 @@ CHECKS = {
             "every symbolic parameter node's shape/axis arithmetic (all ranks, all axes), every compilation rule (torch node gets the "
             "same shapes, axis and integers), every torch parameter kernel's forward (declared shape, element-wise equality with the "
             "mathematical definition along the declared axis, fold-pointwise) and the folding step of parameter nodes (equal fold settings imply "
-            "equal configuration; a node rebuilt from its configuration with F folds is the same node) are discharged as SMT obligations generated "
+            "equal configuration; a node rebuilt from its configuration with F folds is the same node), the evaluation of composite parameter graphs "
+            "(ParameterAddressBook.lookup per entry by the loop rule, evaluate, per-operand address-book entries), the parameter-graph pattern matcher (exclusive "
+            "chains only) and the Log o Softmax fusion are discharged as SMT obligations generated "
             "from the real function bodies; complete in dimension sizes and folds, rank-enumerated for kernels; a labelled bounded stand-in "
             "(node classes x small shapes x folds vs the numpy definition) runs beside it and is not counted",
             PROOF_NOTE, "contracts + self-written VC generation (AST symbolic execution) discharged by z3/cvc5", "4/C14"),
@@ -40,8 +42,11 @@ CHECKS.update({
                  "index = variable id, same-named parameters); the compiled layers' kernels (sum: column h*Ki+i <-> unit i of input h; hadamard; kronecker "
                  "first-input-major; embedding / categorical / gaussian / binomial / constant / evidence; shape (F, B, K); fold- and batch-pointwise, also for "
                  "batch == folds) in the linear semiring; the address-book entry (decode through prefix sums of fold counts, shortcuts only for the identity) for "
-                 "F x H <= 4 and every module pattern; frame: evaluation never updates a possibly aliased tensor in place; the log-space semirings' max-shift, "
-                 "LayerAddressBook.lookup and arbitrary DAGs are covered only by the bounded stand-in (compiled circuits vs the reference interpreter on "
+                 "F x H <= 4 and every module pattern, per-operand entries of parameter graphs, from_index_info of both address books, build_unfold_index_info; "
+                 "LayerAddressBook.lookup by the loop rule (ONE entry from an arbitrary list of earlier outputs: indexed / concatenated / shortcut gathers, input "
+                 "batch columns by scope index, constant layers) and TorchDiAcyclicGraph.evaluate (entry i applied after exactly i outputs, module_fn honoured); "
+                 "frame: evaluation never updates a possibly aliased tensor in place; the log-space semirings' max-shift and the end-to-end statement on "
+                 "arbitrary DAGs are covered only by the bounded stand-in (compiled circuits vs the reference interpreter on "
                  "generated circuits x semirings x flags x batch sizes)"),
     "C02": mixed("contract obligations: fold_settings 2-safety (equal fold settings imply equal configuration) and rebuild-from-config for every "
                  "parameter node and for tensor parameters (shape, requires_grad, dtype); the einsum optimisation rule equals ReduceSum o OuterProduct "
@@ -50,8 +55,11 @@ CHECKS.update({
                  "scope_idx / parameters / wrapped layers in group order, folds summed); build_folded_graph and address-book entries on templates; the pattern "
                  "matchers _match_parameter_nodes_pattern / _match_layer_pattern return only exclusive chains (symbolic in/out-degrees, free class membership, "
                  "pattern length <= 4, config and parameter sub-patterns); apply_tucker / apply_candecomp / apply_sum_collapse and the fused kernels in the "
-                 "compiler's semiring; optimize_graph's splicing, match prioritisation and flag-independence end-to-end on arbitrary circuits are a bounded "
-                 "stand-in: four flag settings with tied parameters vs the reference interpreter"),
+                 "compiler's semiring; the tensor-dot layer's kernel and the shatter rules for Kronecker-product weights; optimize_graph (denotation-preserving on "
+                 "8 graph templates with uninterpreted module functions; its main loop by the loop rule with frame-guarded maps); group_foldable_modules (grouped "
+                 "only if foldable, incl. wrapped sub-modules); layerwise_topological_ordering; the glue (_post_process_circuit, _fold_circuit, _fold_parameters, "
+                 "_optimize_layers, _optimize_parameter_nodes, _optimize_circuit) and the compiler's parameter registry (frame-guarded); match prioritisation "
+                 "(exhaustive on line graphs) and flag-independence end-to-end on arbitrary circuits are a bounded stand-in: four flag settings with tied parameters vs the reference interpreter"),
     "C03": mixed("contract obligations: every integration rule against the spec integral (sum over states / logsumexp / log-partition, right space flag, "
                  "refusal outside the scope) for all sizes; functional.integrate executed symbolically on four circuit templates x five input kinds with "
                  "symbolic variable ids, unit counts and Z: one layer per layer, wiring and output order mirrored, integrated layers constant, others "
@@ -129,7 +137,8 @@ CHECKS.update({
             "contract obligations (z3) on the sampling layout + bounded seeded statistical check against exact probabilities", "4/C15"),
     "C17": mixed("contract obligation: tensor parameters folded into one storage agree on shape, requires_grad and dtype (fold_settings 2-safety); "
                  "the Dirichlet rule draws on the declared axis of the parameter's own shape (rank <= 3, every axis), foldwise_initializer_ sends initialiser i to "
-                 "fold slice i, tensor / constant rules carry learnable / dtype / value, folding a group of tensor parameters keeps member order; values of every "
+                 "fold slice i ON EVERY (re-)initialisation, tensor / constant rules carry learnable / dtype / value, constant / uniform / normal initialiser rules carry "
+                 "the initialiser's own arguments, folding a group of tensor parameters keeps member order, the compiler's parameter registry; values of every "
                  "registry slice after compile and resets vs its own initialiser (also when folded with differently initialised parameters) are a bounded stand-in"),
     "C18": mixed("contract obligations from ARBITRARY registry states (the two dicts of the BiMap are symbolic maps, so the representation invariant is "
                  "preserved over every history by induction): add / lookups / compile memoisation / round trip; PipelineContext operators (refuse unknown "
@@ -143,11 +152,12 @@ CHECKS.update({
             "load_state_dict(strict) -> equal outputs for base and derived circuits (also derived circuits compiled or reset AFTER the load) under the four flag settings",
             PROOF_NOTE + " || " + BOUNDED_NOTE + "; torch.save/torch.load and nn.Module.state_dict/load_state_dict are trusted",
             "frame obligations on the real source (syntactic + executed reset_parameters) + bounded native round-trip check", "4/C19"),
-    "C20": mixed("contract obligations: cp / tucker circuits for tensor orders 2-4 (factor j over variable j with shape[j] states and rank units, product "
+    "C20": mixed("contract obligations: tensor_train for orders 2-5 and ranks 1-3 (contraction step i uses the embeddings of variable i+1 with its dimension; numpy "
+                 "constants by shape); cp / tucker circuits for tensor orders 2-4 (factor j over variable j with shape[j] states and rank units, product "
                  "over all factors in mode order - Kronecker for tucker with rank**n units -, unweighted cp sums with constant ones), hmm for 12 orderings of "
                  "1-4 variables (chain follows the ordering, the input layer of variable v gets the arguments listed for v, latent units, one output unit, "
-                 "non-permutations refused), fully_factorized; the numeric identities against explicit contractions / forward algorithm, tensor_train (numpy / "
-                 "scipy) and the logic-circuit templates are covered by the bounded stand-in"),
+                 "non-permutations refused), fully_factorized; the numeric identities against explicit contractions / forward algorithm, the values of tensor_train's "
+                 "constant matrices and the logic-circuit templates are covered by the bounded stand-in"),
 })
 
 NOT_APPLICABLE = [
